@@ -142,7 +142,13 @@ func (g *swGen) match(e *swExp, prefix string, nfields int) []byte {
 func (g *swGen) actions(n int) []byte {
 	x := nb()
 	for i := 0; i < n; i++ {
-		switch g.r.Intn(5) {
+		switch g.r.Intn(7) {
+		case 5, 6: // set_field: 4-byte action header, one OXM TLV, zero padding to a multiple of 8
+			d := swOxms[g.r.Intn(len(swOxms))]
+			val := g.bytes(d.width)
+			l := 4 + 4 + d.width
+			pad := (8 - l%8) % 8
+			x.u16(25, l+pad).u16(d.class).u8(d.field<<1, d.width).raw(val).z(pad)
 		case 0: // output
 			x.u16(0, 16).u32(uint32(g.u(0xffffff00))).u16(int(g.u(0xffff))).z(6)
 		case 1: // group
